@@ -256,7 +256,8 @@ def normalize_depth_variables(
 
         if 'positive' in variable.attrs:
             positive_attr = variable.attrs.get('positive')
-            data_positive_down = (positive_attr == 'down')
+            # The attribute is not case sensitive, see `Convention.depth_coordinates`
+            data_positive_down = (str(positive_attr).lower() == 'down')
         else:
             # No positive attribute set.
             # This is a violation of the CF conventions,
